@@ -286,7 +286,23 @@ def _geom(name):
         psf = np.array([[0.125, 0.5, 0.0], [0.25, 1.0, 0.5], [0.0, 0.25, 0.0]])
         noise = np.array([2.0, 1.0, 0.5, 1.0, 2.0, 4.0, 1.0])
         sub, mesh, mesh2 = 2, (2, 3), (3, 2)
-    elif name in ("tall", "wide", "col", "row", "big"):
+    elif name == "sq4":    # next size up: 8x8 frame, central 4x4 block (16 pixels), 5x5 PSF, sub-size 2, 4x4 / 3x3 meshes (25 parameters in [M,M])
+        mask = np.ones((8, 8), dtype=bool)
+        mask[2:6, 2:6] = False
+        psf = np.array([[0.0, 0.125, 0.25, 0.0, 0.0], [0.125, 0.5, 0.5, 0.25, 0.0], [0.25, 0.5, 1.0, 0.5, 0.125],
+                        [0.0, 0.25, 0.5, 0.25, 0.125], [0.0, 0.0, 0.125, 0.0, 0.25]])
+        noise = np.array([1.0, 2.0, 1.0, 2.0, 4.0, 2.0, 1.0, 2.0, 0.5, 1.0, 4.0, 2.0, 0.5, 1.0, 2.0, 1.0])
+        sub, mesh, mesh2 = 2, (4, 4), (3, 3)
+    elif name == "ring5":  # 9x9 frame, 5x5 block with the centre pixel and one corner masked (23 pixels, a hole), 5x5 PSF, 5x5 / 3x3 meshes
+        mask = np.ones((9, 9), dtype=bool)
+        mask[2:7, 2:7] = False
+        mask[4, 4] = True
+        mask[2, 6] = True
+        psf = np.array([[0.0, 0.125, 0.25, 0.0, 0.0], [0.125, 0.5, 0.5, 0.25, 0.0], [0.25, 0.5, 1.0, 0.5, 0.125],
+                        [0.0, 0.25, 0.5, 0.25, 0.125], [0.0, 0.0, 0.125, 0.0, 0.25]])
+        noise = np.array([1.0, 2.0, 1.0, 2.0, 4.0, 2.0, 1.0, 2.0, 0.5, 1.0, 4.0, 2.0, 0.5, 1.0, 2.0, 1.0, 2.0, 1.0, 0.5, 4.0, 1.0, 2.0, 1.0])
+        sub, mesh, mesh2 = 1, (5, 5), (3, 3)
+    elif name in ("tall", "wide", "col", "row", "big", "tiny", "delta"):
         # 7x7 frame, central 3x3 block; non-square PSFs (5x3 / 3x5 / 3x1 / 1x3: row reach != column reach), and 'big': the sq3
         # PSF with the noise map in large units (x 2^16, still dyadic: entries of F ~ 1e-9, far below absolute tolerances)
         # tall / col: 9x5 frame with a 5x2 unmasked strip, wide / row: its transpose - pixel pairs up to 4 rows (columns) apart,
@@ -303,9 +319,11 @@ def _geom(name):
         psf = {"tall": np.array([[0.0, 0.25, 0.125], [0.25, 0.5, 0.0], [0.5, 1.0, 0.25], [0.0, 0.5, 0.25], [0.125, 0.25, 0.0]]),
                "wide": np.array([[0.0, 0.25, 0.5, 0.0, 0.125], [0.25, 0.5, 1.0, 0.5, 0.25], [0.125, 0.0, 0.25, 0.25, 0.0]]),
                "col": np.array([[0.5], [1.0], [0.25]]), "row": np.array([[0.25, 1.0, 0.5]]),
-               "big": np.array([[0.0, 0.5, 0.0], [0.5, 1.0, 0.25], [0.0, 0.25, 0.125]])}[name]
-        if name == "big":
-            noise = np.array([1.0, 2.0, 1.0, 2.0, 4.0, 2.0, 1.0, 2.0, 0.5]) * 65536.0
+               "big": np.array([[0.0, 0.5, 0.0], [0.5, 1.0, 0.25], [0.0, 0.25, 0.125]]),
+               "tiny": np.array([[0.0, 0.5, 0.0], [0.5, 1.0, 0.25], [0.0, 0.25, 0.125]]),
+               "delta": np.array([[0.0, 0.0, 0.0], [0.0, 1.0, 0.0], [0.0, 0.0, 0.0]])}[name]    # degenerate PSF: no blurring at all
+        if name in ("big", "tiny", "delta"):
+            noise = np.array([1.0, 2.0, 1.0, 2.0, 4.0, 2.0, 1.0, 2.0, 0.5]) * {"big": 65536.0, "tiny": 1.0 / 65536.0, "delta": 1.0}[name]
             sub, mesh, mesh2 = 1, (3, 3), (2, 2)
         else:
             noise = np.array([1.0, 2.0, 1.0, 2.0, 4.0, 2.0, 1.0, 2.0, 0.5, 1.0])
@@ -453,13 +471,18 @@ def _noise(g, inp):
         nv = np.asarray(inp["n"]).reshape(-1)
         if noise.dtype != object and nv.dtype == object:
             noise = noise.astype(object)
-        for j, i in enumerate(_noise_positions(g)):
+        for j, i in enumerate(_noise_positions(g, len(nv))):
             noise[i] = nv[j]
     return noise
 
 
-def _noise_positions(g):
-    return (0, g["n"] // 2, g["n"] - 2)
+def _noise_positions(g, count=3):
+    """which noise-map pixels are symbolic: 3 spread ones by default (quick), `count` evenly spread ones otherwise"""
+    if count == 3:
+        return (0, g["n"] // 2, g["n"] - 2)
+    if count >= g["n"]:
+        return tuple(range(g["n"]))
+    return tuple(sorted({(j * g["n"]) // count for j in range(count)}))
 
 
 def _subset_tag(subset):
@@ -667,7 +690,7 @@ def _inputs(ctx, g, noise_sym, box=None):
         for e in inputs["d"]:
             ctx.assume(z3.And(e.t >= -box, e.t <= box))
     if noise_sym:
-        n = V.real_array("n", (len(_noise_positions(g)),))
+        n = V.real_array("n", (len(_noise_positions(g, 3 if noise_sym is True else int(noise_sym))),))
         for e in n:
             ctx.assume(z3.And(e.t >= V.rval(0.25), e.t <= V.rval(8)))
         inputs["n"] = n
